@@ -368,6 +368,8 @@ func findEntries(l *loaded, re string, tier string) ([]*EntrySpec, error) {
 					if len(fields) > 1 && tier == "thorough" {
 						e.Cfg.Preempt, _ = strconv.Atoi(fields[1])
 					}
+				case "prune-unwind":
+					e.Cfg.PruneUnwind = true
 				case "noifconv":
 					e.Cfg.NoIfConv = true
 				case "nopor":
@@ -382,6 +384,9 @@ func findEntries(l *loaded, re string, tier string) ([]*EntrySpec, error) {
 			}
 			e.Cfg.Thorough = tier == "thorough"
 			if e.Tier == "thorough" && tier != "thorough" {
+				continue
+			}
+			if e.Tier == "manual" && tier != "manual" {
 				continue
 			}
 			if e.Tier == "quickonly" && tier != "quick" {
